@@ -65,6 +65,7 @@ def run(chk: Check, proj: Project) -> None:
     s9_replacement_is_not_a_template(chk, proj)
     s5_merge_repeated(chk, proj, w)
     s6_pipeline(chk, proj, w)
+    s10_parts_render_escaped(chk, proj)
     from . import generic
 
     chk.rule("S7", "render routes forward every shared parameter (escape_slots_content among them), generic form (shared with C01-S10)")
@@ -449,6 +450,28 @@ def s4(chk: Check, proj: Project, w) -> None:
         domok = bool(gn) and all(cfg.dominates(gn[0], r, dom) for r in rets)
         chk.ob("S4", key, dm.loc(guards[0]), ok and domok, f"`{short(t)}` refuses every occurrence of {needle!r} (any case) before wrapping" if ok and domok else
                f"end-tag guard `{short(t)}` is too weak ({why if not ok else 'does not dominate the return'}): such content is emitted and closes its element early")
+
+
+def s10_parts_render_escaped(chk: Check, proj: Project) -> None:
+    chk.rule("S10", "the parts of a multi-part tag argument (`title=\"Hello {{ v }}\"`) are joined by NodeList.render, which marks the result SAFE: every part is therefore the wrapped node's own render() output (VariableNode.render applies autoescape) - a wrapper that takes a `{{ }}` part's value from FilterExpression.resolve() hands the raw value to a result that nothing escapes again, so `\"`, `<`, `>` in the variable break out of the attribute html_attrs emits")
+    m = proj.mod("expression")
+    n = 0
+    for q, c in sorted(m.defs.items()):
+        if not isinstance(c, ast.ClassDef) or not any((dotted(b) or "").split(".")[-1] == "Node" for b in c.bases):
+            continue
+        r = next((x for x in c.body if isinstance(x, ast.FunctionDef) and x.name == "render"), None)
+        if r is None:
+            continue
+        n += 1
+        chk.analysed(f"{m.name}:{q}.render")
+        raw = [x for x in ast.walk(r) if isinstance(x, ast.Call) and isinstance(x.func, ast.Attribute) and x.func.attr == "resolve"]
+        rets = [x for x in ast.walk(r) if isinstance(x, ast.Return) and x.value is not None]
+        rendered = [x for x in ast.walk(r) if isinstance(x, ast.Call) and isinstance(x.func, ast.Attribute) and x.func.attr in ("render", "render_annotated") and "self." in norm(x.func.value)]
+        ok = not raw and bool(rendered) and bool(rets)
+        chk.ob("S10", f"expression:{q}.render:part-is-the-node's-rendered-output", m.loc(raw[0]) if raw else m.loc(r), ok,
+               "the part is what the wrapped node's render() returns" if ok else
+               f"`{short(raw[0]) if raw else short(r)}` takes the value of a template variable without the escaping VariableNode.render applies, inside a NodeList whose joined result is marked safe: `{{% html_attrs title=\"Hello {{{{ v }}}}\" %}}` with v = '\" onmouseover=\"x' emits the attribute break-out")
+    chk.floor("S10", n, 1)
 
 
 MANIFEST = {
